@@ -256,6 +256,13 @@ def run(ctx):
                 'A case is one closure.')
     rep.assumptions = ['harness/mockwl.c reproduces the member names and frame shapes of libwayland 1.23 that the plugin reads',
                        'gdb 13 itself; the printer model stands in for wl_closure_print']
+    # whole sessions of closures of the shipped interfaces in the real gdb: each is reported as log mode would report the line
+    # libwayland prints for it (names, declared interfaces of null objects and kinds included)
+    import re as _re
+    from props import c15
+    _rx = _re.compile(r'^(rec|shown)\.(arg\.(name|nil|kind|value|new|obj\.(id|type))|name|dir|nargs|target\.(id|type))$')
+    c15.real_gdb_sessions(ctx, rep, rel=lambda a: bool(_rx.match(a)), n=ctx.pick(6, 50), salt=104729, tag='real-gdb-report', destroy=0.03,
+                           extra=[c15.null_objects_session(False), c15.null_objects_session(True)])
     return rep
 
 
